@@ -175,6 +175,8 @@ class P:
             self.eat()
 
     def pattern(self):
+        if self.at("&"):
+            self.eat()
         if self.at("_"):
             self.eat()
             return ("pwild",)
@@ -299,6 +301,9 @@ class P:
         if k == "num":
             self.eat()
             return ("num", v)
+        if k == "str":
+            self.eat()
+            return ("str", v)
         if v == "(":
             self.eat("(")
             if self.at(")"):
@@ -553,6 +558,7 @@ PATHS = {
     ("Vec2", "ZERO"): "Vec2.ZERO", ("Vec2", "X"): "Vec2.X", ("Vec2", "Y"): "Vec2.Y", ("Vec2", "ONE"): "Vec2.ONE",
     ("Vec3", "ZERO"): "Vec3.ZERO", ("Vec3", "X"): "Vec3.X", ("Vec3", "Y"): "Vec3.Y", ("Vec3", "Z"): "Vec3.Z",
     ("Vec3", "ONE"): "Vec3.ONE",
+    ("Ordering", "Less"): "Ordering.lt", ("Ordering", "Equal"): "Ordering.eq", ("Ordering", "Greater"): "Ordering.gt",
     ("ActionValue", "Bool"): "ActionValue.vBool", ("ActionValue", "Axis1D"): "ActionValue.vAxis1D",
     ("ActionValue", "Axis2D"): "ActionValue.vAxis2D", ("ActionValue", "Axis3D"): "ActionValue.vAxis3D",
     ("ActionValueDim", "Bool"): "ActionValueDim.dBool", ("ActionValueDim", "Axis1D"): "ActionValueDim.dAxis1D",
